@@ -101,8 +101,11 @@ def coding_rule_stage(res, tier, seed, open_ids):
     for rep in range(n_rep):
         r = rng_for(seed, "c05", "rule", rep)
         df = crossed_frame(r)
-        for eff in RULE_EFFECTS:
-            formula = f"y ~ ({eff} | g)"
+        forms = [f"y ~ ({eff} | g)" for eff in RULE_EFFECTS] + [
+            "y ~ (0 + h | g) + (1 | g)", "y ~ (1 | g) + (0 + h | g)",
+            "y ~ (0 + x | g) + (0 + f | g) + (1 | g)", "y ~ (0 + f | g) + (x | g)",
+            "y ~ x + (0 + f | g) + f + (1 | g)", "y ~ (0 + f:h | g) + (0 + x | g)"]
+        for formula in forms:
             res.evaluations += 1
             case = {"formula": formula, "seed_path": f"rule{rep}"}
             try:
@@ -127,6 +130,7 @@ def coding_rule_stage(res, tier, seed, open_ids):
             res.count("rule_cases")
             ok = rz == z.shape[1] and rz == rr == rj
             res.nontrivial.add((formula, rep))
+            has_icpt = any(isinstance(t.expr, Intercept) for t in terms)
             if not ok:
                 # recorded defect classes D11 / D12: the rule the code uses ("reduced iff (1 | g) is in
                 # the model") differs from the common-effects analysis (C03) of the effect family,
@@ -144,7 +148,11 @@ def coding_rule_stage(res, tier, seed, open_ids):
                         for t in terms if not isinstance(t.expr, Intercept)]
                 rule = ask([{"op": "c05_rule", "family": fam, "used": used}])[0]
                 cls = None
-                if not rule["agrees"]:
+                # (b) the flags must be the ones the recorded rule predicts (Model/Pipeline.lean:
+                # reduced iff (1 | same factor) is among the group terms); a different deviation
+                # from the C03 analysis is not the recorded defect
+                predicted = all(fl == (not has_icpt) for _, cf in flags for _, fl in cf)
+                if not rule["agrees"] and predicted:
                     cls = "KF-C05-D11" if rule.get("has_intercept") else "KF-C05-D12"
                 fid = cls if cls in open_ids else None
                 if fid:
